@@ -197,10 +197,24 @@ theorem release_is_one_region :
     Gen.wpRegions_release.length = 1 ∧ Gen.wpUnlocked_release = [] ∧
     (∀ t ∈ ["r:mustStop", "w:ready"], t ∈ Gen.wpRegions_release.flatten) := by decide
 
-/-- clean: the cut of `ready` is one region; only the nil notifications happen outside (event `notify`) -/
+/-- clean: the cut of `ready` is one region; only the nil notifications happen outside (event `notify`), and they are
+    plain BLOCKING send statements ("send"; a send inside a `select` with `default` would be "trysend", one in a
+    select without default "selsend"): the event `notify w` puts the nil into the worker's channel unconditionally,
+    i.e. the code must wait until the retired worker takes it — with unbuffered channels (GOMAXPROCS=1) a
+    non-blocking attempt would drop the signal for a worker that has called `release` but is not yet parked on its
+    channel, and that worker would be lost (out of `ready`, never told to stop). -/
 theorem clean_is_one_region_sends_outside :
     Gen.wpRegions_clean.length = 1 ∧ Gen.wpUnlocked_clean = ["send"] ∧
     (∀ t ∈ ["r:ready", "w:ready"], t ∈ Gen.wpRegions_clean.flatten) ∧ "send" ∉ Gen.wpRegions_clean.flatten := by decide
+
+/-- every hand-over of the pool is a blocking send: Serve's `ch.ch <- c` (event `send`), Stop's and clean's nils;
+    no method uses a non-blocking or multi-way send -/
+theorem all_sends_are_blocking :
+    Gen.wpRegions_Serve = [] ∧ Gen.wpUnlocked_Serve = ["send"] ∧
+    (∀ t ∈ ["trysend", "selsend"],
+      t ∉ Gen.wpUnlocked_clean ∧ t ∉ Gen.wpRegions_clean.flatten ∧ t ∉ Gen.wpUnlocked_Stop ∧ t ∉ Gen.wpRegions_Stop.flatten ∧
+      t ∉ Gen.wpUnlocked_Serve ∧ t ∉ Gen.wpUnlocked_getCh ∧ t ∉ Gen.wpRegions_getCh.flatten ∧
+      t ∉ Gen.wpUnlocked_release ∧ t ∉ Gen.wpRegions_release.flatten) := by decide
 
 /-- Stop: draining `ready`, the nil sends and `mustStop = true` are one critical section -/
 theorem stop_is_one_region :
